@@ -47,6 +47,11 @@ pub fn inconclusive(why: &str) -> ! {
     panic!("Q:inconclusive:{}", why)
 }
 pub fn take_inconclusive() -> u32 { INCONCLUSIVE.with(|c| c.replace(0)) }
+thread_local! { static STRICT_DIV: Cell<bool> = Cell::new(false); }
+/// When on, a division by zero inside the code under test is an outcome of that code (a float
+/// would become NaN/inf) and is logged as a failed call; when off (default) the sample is dropped
+/// as inconclusive (drivers whose generators may produce singular inputs).
+pub fn set_strict_div(on: bool) { STRICT_DIV.with(|c| c.set(on)); }
 
 fn gcd(mut a: i128, mut b: i128) -> i128 {
     a = a.abs(); b = b.abs();
@@ -230,7 +235,7 @@ impl Mul for Q {
 impl Div for Q {
     type Output = Q;
     fn div(self, o: Q) -> Q {
-        if o.n == 0 { inconclusive("division by zero") }
+        if o.n == 0 { if STRICT_DIV.with(|c| c.get()) { panic!("Q:division by zero in the code under test") } inconclusive("division by zero") }
         let u = if self.n == 0 { Unit::One } else if o.u == Unit::One { self.u } else if o.u == self.u { Unit::One } else { inconclusive("quotient of different units") };
         let inv = Q::new(o.d, o.n);
         (self.coef() * inv).with(u)
